@@ -266,6 +266,40 @@ func init() {
 							c.Violation("C17:bits-to-voxels:run-exceeds-the-cell-interval", d)
 						}
 					}},
+				{Name: "bits-to-voxels-lists", Serial: true, Bounds: engine.Bounds{InputDev: -1},
+					Rule: "lists of two bit-form elements in one call: same (zoom, cell) with two different height ranges, different cells with one range, and both orders x output zooms: the result must be the union of the two single-element results (relational); non-trivial = distinct lists whose elements have different ranges",
+					Body: func(c *engine.Ctx) {
+						bz := []int64{3, 6, 7}[c.In("bitZoom", 3)]
+						n := int64(1) << uint(bz)
+						k1 := []int64{0, n / 2, n - 1}[c.In("cell1", 3)]
+						k2 := []int64{0, n / 2, n - 1}[c.In("cell2", 3)]
+						r1 := c17Ranges[c.In("range1", len(c17Ranges))]
+						r2 := c17Ranges[c.In("range2", len(c17Ranges))]
+						ov := []int64{20, 24, 26}[c.In("outV", 3)]
+						mk := func(k int64, r hrange) *object.QuadkeyAndVerticalID {
+							return object.NewQuadkeyAndVerticalID(6, ref.Quadkey(6, 24, 53), bz, k, r.max, r.min)
+						}
+						span := func(r hrange) float64 { return (r.max - r.min) / float64(n) / math.Ldexp(1, int(25-ov)) }
+						if span(r1) > 2000 || span(r2) > 2000 {
+							c.Skip("run-longer-than-2000")
+						}
+						one1, e1 := transform.ConvertQuadkeysAndVerticalIDsToExtendedSpatialIDs([]*object.QuadkeyAndVerticalID{mk(k1, r1)}, 6, ov)
+						one2, e2 := transform.ConvertQuadkeysAndVerticalIDsToExtendedSpatialIDs([]*object.QuadkeyAndVerticalID{mk(k2, r2)}, 6, ov)
+						both, e3 := transform.ConvertQuadkeysAndVerticalIDsToExtendedSpatialIDs([]*object.QuadkeyAndVerticalID{mk(k1, r1), mk(k2, r2)}, 6, ov)
+						if e1 != nil || e2 != nil || e3 != nil {
+							c.Skip("conversion-error")
+						}
+						c.Observe("%d %d %d %v %v %d -> %d", bz, k1, k2, r1, r2, ov, len(both))
+						if r1 != r2 {
+							c.Nontrivial(fmt.Sprint(bz, k1, k2, r1, r2, ov))
+						}
+						want := append(append([]string{}, one1...), one2...)
+						m, e := diffSets(both, want)
+						if len(m)+len(e) > 0 || dupOf(both) != "" {
+							c.Violation("C17:bits-to-voxels:list-result-differs-from-union-of-single-results", map[string]any{
+								"bitZoom": bz, "cell1": k1, "cell2": k2, "range1": fmt.Sprint(r1), "range2": fmt.Sprint(r2), "outV": ov, "missing": head(m, 6), "extra": head(e, 6)})
+						}
+					}},
 				{Name: "range-errors", Serial: true, Bounds: engine.Bounds{InputDev: -1},
 					Rule: "maxHeight < minHeight in both directions for each range reversed: error required; non-trivial = distinct reversed ranges",
 					Body: func(c *engine.Ctx) {
